@@ -305,6 +305,13 @@ func Run(c Case, r *pbt.Rec) (err error) {
 				return pbt.Failf("reopen", "step %d: reopen failed: %v", i, err)
 			}
 			r.Label("op:reopen")
+			if os.Getenv("VERIF_TRACE") != "" {
+				lay := ""
+				for _, ti := range db.VerifLSM().VerifLayout() {
+					lay += fmt.Sprintf(" L%d/ing=%v/fid=%d", ti.Level, ti.Ingest, ti.FID)
+				}
+				fmt.Printf("TRACE step %d reopen layout:%s\n", i, lay)
+			}
 			trk.Sync(db.VerifLSM().VerifLayout(), false)
 			if err := fullCheck(i); err != nil {
 				return fmt.Errorf("after reopen: %w", err)
